@@ -5,7 +5,7 @@ CASES = [
          old="""        self._len_scale, self._anis = set_len_anis(
             self.dim, len_scale, self.anis, self.latlon
         )
-        self.check_arg_bounds()
+        self._check_or_restore(_len_scale=old[0], _anis=old[1])
 
     @property
     def rescale(self):""",
@@ -20,9 +20,9 @@ CASES = [
 
     @property
     def rescale(self):"""),
-    dict(name="nugget-setter-no-check", file=B, expect="R14.1", old="        self._nugget = float(nugget)\n        self.check_arg_bounds()\n", new="        self._nugget = float(nugget)\n"),
+    dict(name="nugget-setter-no-check", file=B, expect="R14.1", old="        self._nugget = float(nugget)\n        self._check_or_restore(_nugget=old)\n", new="        self._nugget = float(nugget)\n"),
     dict(name="var-setter-check-before-store", file=B, expect="R14.1",
-         old="        self._var = float(var) / self.var_factor()\n        self.check_arg_bounds()\n", new="        self.check_arg_bounds()\n        self._var = float(var) / self.var_factor()\n"),
+         old="        self._var = float(var) / self.var_factor()\n        self._check_or_restore(_var=old)\n", new="        self._check_or_restore(_var=old)\n        self._var = float(var) / self.var_factor()\n"),
     dict(name="angles-setter-no-check", file=B, expect="R14.1",
          old="""            self.dim, angles, self.latlon, self.temporal
         )
@@ -42,10 +42,11 @@ CASES = [
          new="""            model.dim, model._angles, model.latlon, model.temporal
         )"""),
     dict(name="setattr-no-check", file=B, expect="R14.1",
-         old="""        if hasattr(self, "_opt_arg") and name in self._opt_arg:
-            self.check_arg_bounds()""",
-         new="""        if hasattr(self, "_opt_arg") and name in self._opt_arg:
-            pass"""),
+         old="""            if had_value:
+                self._check_or_restore(**{name: old})
+            else:
+                self.check_arg_bounds()""",
+         new="""            pass"""),
     dict(name="init-check-too-early", file=B, expect="R14.1",
          old="""        # final check for parameter bounds
         self.check_arg_bounds()
@@ -54,19 +55,19 @@ CASES = [
          new="""        # additional checks for the optional arguments (provided by user)
         self.check_opt_arg()"""),
     dict(name="check-skips-optargs", file=B, expect="R14.1", old="        res.update(self.opt_arg_bounds)\n        return res", new="        return res"),
-    dict(name="nugget-unnormalised", file=B, expect="R14.2", old="        self._nugget = float(nugget)\n        self.check_arg_bounds()\n", new="        self._nugget = nugget\n        self.check_arg_bounds()\n"),
+    dict(name="nugget-unnormalised", file=B, expect="R14.2", old="        self._nugget = float(nugget)\n        self._check_or_restore(_nugget=old)\n", new="        self._nugget = nugget\n        self._check_or_restore(_nugget=old)\n"),
     dict(name="anis-setter-bypasses-normaliser", file=B, expect="R14.2",
          old="""        self._len_scale, self._anis = set_len_anis(
             self.dim, self.len_scale, anis, self.latlon
         )
-        self.check_arg_bounds()""",
+        self._check_or_restore(_len_scale=old[0], _anis=old[1])""",
          new="""        self._anis = np.atleast_1d(anis)
         self.check_arg_bounds()"""),
     dict(name="anis-setter-forgets-latlon", file=B, expect="R14.2",
          old="""        self._len_scale, self._anis = set_len_anis(
             self.dim, self.len_scale, anis, self.latlon
         )
-        self.check_arg_bounds()""",
+        self._check_or_restore(_len_scale=old[0], _anis=old[1])""",
          new="""        self._len_scale, self._anis = set_len_anis(
             self.dim, self.len_scale, anis
         )
@@ -101,7 +102,23 @@ CASES = [
     dict(name="field-dim-wrong", file=B, expect="R14.4", old="        return 2 + int(self.temporal) if self.latlon else self.dim\n", new="        return 2 if self.latlon else self.dim\n"),
     # twins
     dict(name="twin-check-via-local", kind="twin", file=B,
-         old="        self._nugget = float(nugget)\n        self.check_arg_bounds()\n", new="        new_nugget = float(nugget)\n        self._nugget = float(new_nugget)\n        self.check_arg_bounds()\n"),
+         old="        self._nugget = float(nugget)\n        self._check_or_restore(_nugget=old)\n", new="        new_nugget = float(nugget)\n        self._nugget = float(new_nugget)\n        self._check_or_restore(_nugget=old)\n"),
     dict(name="twin-comparator-rewritten", kind="twin", file=T,
          old="        if np.any(val <= bnd[0]):\n            error_case = 2", new="        if np.any(np.logical_not(val > bnd[0])):\n            error_case = 2"),
+    # the state before the repair 749293a: store, check, and keep the rejected value
+    dict(name="revert-var-restore", file="covmodel/base.py", expect="R14.12",
+         old="        old = self._var\n        self._var = float(var) / self.var_factor()\n        self._check_or_restore(_var=old)\n",
+         new="        self._var = float(var) / self.var_factor()\n        self.check_arg_bounds()\n"),
+    dict(name="restore-wrong-field", file="covmodel/base.py", expect="R14.12",
+         old="        old = self._nugget\n        self._nugget = float(nugget)\n        self._check_or_restore(_nugget=old)\n",
+         new="        old = self._var\n        self._nugget = float(nugget)\n        self._check_or_restore(_nugget=old)\n"),
+    dict(name="old-value-read-after-store", file="covmodel/base.py", expect="R14.12",
+         old="        old = self._nugget\n        self._nugget = float(nugget)\n        self._check_or_restore(_nugget=old)\n",
+         new="        self._nugget = float(nugget)\n        old = self._nugget\n        self._check_or_restore(_nugget=old)\n"),
+    dict(name="helper-swallows-error", file="covmodel/base.py", expect="R14.12",
+         old="            for name, value in old.items():\n                super().__setattr__(name, value)\n            raise\n",
+         new="            for name, value in old.items():\n                super().__setattr__(name, value)\n"),
+    dict(name="len-scale-restores-only-one-field", file="covmodel/base.py", expect="R14.12",
+         old="        self._check_or_restore(_len_scale=old[0], _anis=old[1])\n\n    @property\n    def rescale(self):",
+         new="        self._check_or_restore(_len_scale=old[0])\n\n    @property\n    def rescale(self):"),
 ]
